@@ -21,7 +21,7 @@ cd /tmp/mutharness && CARGO_TARGET_DIR=/verif/harness/target-mut cargo build --r
 rm -rf /tmp/mutout/$ID; mkdir -p /tmp/mutout/$ID; cp /verif/known_findings.json /tmp/mutout/$ID/
 if [ "$ID" = C09 ]; then
   CARGO_TARGET_DIR=/verif/harness/target-mut cargo build --release -p model-mon 2>&1 | grep -E "^error" -A8 | head -20
-  VERIF_PART=model VERIF_DIR=/tmp/mutout/$ID /verif/harness/target-mut/release/model-mon $ID --tier $TIER 2>&1 | grep -E "^VIOLATION|^KNOWN|verdict=|inconclusive" | cut -c1-220 | head -12
+  VERIF_PART=model VERIF_DIR=/tmp/mutout/$ID /verif/harness/target-mut/release/model-mon $ID --tier $TIER 2>&1 | grep -E "^VIOLATION|^KNOWN|verdict=|inconclusive" | cut -c1-220 | head -60
 fi
-VERIF_DIR=/tmp/mutout/$ID /verif/harness/target-mut/release/$BIN $ID --tier $TIER 2>&1 | grep -E "^VIOLATION|^KNOWN|verdict=|inconclusive" | cut -c1-220 | head -12
+VERIF_DIR=/tmp/mutout/$ID /verif/harness/target-mut/release/$BIN $ID --tier $TIER 2>&1 | grep -E "^VIOLATION|^KNOWN|verdict=|inconclusive" | cut -c1-220 | head -60
 git -C /tmp/mutrepo checkout -q -- . ; git -C /tmp/mutrepo clean -fdq -e target
